@@ -19,6 +19,11 @@ pub mod cap {
     pub const VEC: usize = 4;
     #[cfg(kani)]
     pub const MAP: usize = 4;
+    /// heap-indirect AST vectors (statement lists of IF, argument / target lists)
+    #[cfg(kani)]
+    pub const BVEC: usize = 2;
+    #[cfg(not(kani))]
+    pub const BVEC: usize = 128;
     #[cfg(kani)]
     pub const DEQ: usize = 8;
     #[cfg(kani)]
@@ -409,7 +414,7 @@ pub mod string {
 
 // =================================================================================================================
 pub mod vec {
-    use super::cap::VEC;
+    use super::cap::{BVEC, VEC};
     use super::capacity_exceeded;
     use core::mem::{ManuallyDrop, MaybeUninit};
 
@@ -816,14 +821,28 @@ pub mod vec {
     /// length (measured: RENUM of a token-less line walked every statement kind).
     pub struct BVec<T> {
         len: usize,
-        buf: Option<Box<Store<T, VEC>>>,
+        /// element store: heap (owned) or, for harness-built ASTs, a caller-provided stack object (`harness_on`)
+        ptr: *mut Store<T, BVEC>,
+        owned: bool,
+    }
+    /// Storage a harness can put on its own stack and lend to a `BVec` (CBMC keeps stack objects typed; heap objects are bytes).
+    pub struct BStore<T>(Store<T, BVEC>);
+    impl<T> BStore<T> {
+        pub fn new() -> Self {
+            BStore(Store::new())
+        }
     }
     impl<T> BVec<T> {
         pub fn new() -> Self {
-            BVec { len: 0, buf: None }
+            BVec { len: 0, ptr: core::ptr::null_mut(), owned: false }
         }
         pub fn with_capacity(_n: usize) -> Self {
             Self::new()
+        }
+        /// Harness set-up only: an empty vector whose elements live in `store`. The caller keeps `store` alive for as long as the
+        /// vector (or anything it was moved into) is used and `mem::forget`s the owner at the end.
+        pub fn harness_on(store: &mut BStore<T>) -> Self {
+            BVec { len: 0, ptr: &mut store.0 as *mut Store<T, BVEC>, owned: false }
         }
         #[inline]
         pub fn len(&self) -> usize {
@@ -834,34 +853,31 @@ pub mod vec {
             self.len == 0
         }
         pub fn as_slice(&self) -> &[T] {
-            match &self.buf {
-                Some(b) if self.len > 0 => unsafe { b.slice(self.len) },
-                _ => &[],
+            if self.len > 0 && !self.ptr.is_null() {
+                unsafe { (*self.ptr).slice(self.len) }
+            } else {
+                &[]
             }
         }
         pub fn push(&mut self, v: T) {
-            if self.len >= VEC {
+            if self.len >= BVEC {
                 capacity_exceeded();
             }
-            if self.buf.is_none() {
-                self.buf = Some(Box::new(Store::new()));
+            if self.ptr.is_null() {
+                self.ptr = Box::into_raw(Box::new(Store::new()));
+                self.owned = true;
             }
             let len = self.len;
-            if let Some(b) = &mut self.buf {
-                unsafe { b.write(len, v) };
-            }
+            unsafe { (*self.ptr).write(len, v) };
             self.len += 1;
         }
         pub fn pop(&mut self) -> Option<T> {
-            if self.len == 0 {
+            if self.len == 0 || self.ptr.is_null() {
                 return None;
             }
             self.len -= 1;
             let len = self.len;
-            match &self.buf {
-                Some(b) => Some(unsafe { b.read(len) }),
-                None => None,
-            }
+            Some(unsafe { (*self.ptr).read(len) })
         }
         pub fn iter(&self) -> core::slice::Iter<'_, T> {
             self.as_slice().iter()
@@ -878,6 +894,9 @@ pub mod vec {
                 while let Some(v) = self.pop() {
                     drop(v);
                 }
+            }
+            if self.owned && !self.ptr.is_null() {
+                unsafe { drop(Box::from_raw(self.ptr)) };
             }
         }
     }
@@ -951,10 +970,10 @@ pub mod vec {
             }
             let i = self.front;
             self.front += 1;
-            match &self.v.buf {
-                Some(b) => Some(unsafe { b.read(i) }),
-                None => None,
+            if self.v.ptr.is_null() {
+                return None;
             }
+            Some(unsafe { (*self.v.ptr).read(i) })
         }
     }
     impl<T> Drop for BIntoIter<T> {
@@ -2093,5 +2112,5 @@ pub mod sync {
 
 pub mod prelude {
     pub use super::string::{String, VStr, VToString};
-    pub use super::vec::{BVec, Vec};
+    pub use super::vec::{BStore, BVec, Vec};
 }
